@@ -144,7 +144,8 @@ def log_star_ref(x):
     """-log(1 - e^x) for x < 0, by decimal arithmetic."""
     # precision must exceed the number of leading nines of e^x: x may be as small as -5e-324
     with localcontext() as c:
-        c.prec = 60 if x < -1e-20 else 420
+        # ... and, for very negative x, the number of leading zeros of e^x (1 - e^x must keep ~20 digits of e^x itself)
+        c.prec = (60 + min(400, int(abs(x) / 2.302) + 1)) if x < -1e-20 else 420
         d = Decimal(x)
         e = d.exp()
         return float(-(Decimal(1) - e).ln())
@@ -381,5 +382,7 @@ def route(case, v):
 def selfcheck():
     assert abs(log_star_ref(-30.0) - 9.357622968840613e-14) < 1e-27
     assert abs(log_star_ref(-1e-10) - (-math.log(-math.expm1(-1e-10)))) < 1e-12
+    assert abs(log_star_ref(-107.0) / (-math.log1p(-math.exp(-107.0))) - 1) < 1e-15     # needs > 47 + 16 digits
+    assert log_star_ref(-700.0) > 0 and abs(log_star_ref(-700.0) / math.exp(-700.0) - 1) < 1e-14
     assert abs(log_star_ref(-2.843714484292364e-237) - 544.6675559249898) < 1e-9
     assert ext_mul(Fraction(0), 'inf') == 0 and ext_add(Fraction(1), 'inf') == 'inf'
